@@ -51,7 +51,12 @@ typedef enum {
   ARES_CONN_STATE_READ      = 1 << 0,
   ARES_CONN_STATE_WRITE     = 1 << 1,
   ARES_CONN_STATE_CONNECTED = 1 << 2, /* This doesn't get a callback */
-  ARES_CONN_STATE_CBFLAGS   = ARES_CONN_STATE_READ | ARES_CONN_STATE_WRITE
+  /*! read_answers() is processing the input of this connection and still
+   *  needs it; closing the connection must leave freeing it to read_answers() */
+  ARES_CONN_STATE_READING = 1 << 3,
+  /*! The connection was closed while ARES_CONN_STATE_READING was set */
+  ARES_CONN_STATE_CLOSED  = 1 << 4,
+  ARES_CONN_STATE_CBFLAGS = ARES_CONN_STATE_READ | ARES_CONN_STATE_WRITE
 } ares_conn_state_flags_t;
 
 struct ares_conn {
@@ -165,6 +170,7 @@ struct ares_server {
 };
 
 void ares_close_connection(ares_conn_t *conn, ares_status_t requeue_status);
+void ares_conn_free(ares_conn_t *conn);
 void ares_close_sockets(ares_server_t *server);
 void ares_check_cleanup_conns(const ares_channel_t *channel);
 
